@@ -43,7 +43,7 @@ func (dec *Decoder) readObject(structInfo structInfo) interface{} {
 	ptr := reflect2.PtrOf(obj)
 	for _, name := range structInfo.names {
 		if field, ok := structInfo.fields[name]; ok {
-			field.Decode(dec, field.Type.Type1(), field.Field.UnsafeGet(ptr))
+			field.Decode(dec, field.Type.Type1(), field.unsafeGet(ptr))
 		} else {
 			var v interface{}
 			dec.decodeInterface(dec.NextByte(), &v)
@@ -78,7 +78,7 @@ func (valdec *structDecoder) decodeField(dec *Decoder, ptr unsafe.Pointer, name 
 	field, ok := valdec.fields[name]
 	valdec.RUnlock()
 	if ok {
-		field.Decode(dec, field.Type.Type1(), field.Field.UnsafeGet(ptr))
+		field.Decode(dec, field.Type.Type1(), field.unsafeGet(ptr))
 	} else {
 		var v interface{}
 		dec.decodeInterface(dec.NextByte(), &v)
